@@ -59,6 +59,8 @@ def configs(tier, seed):
     fams = ["two_overlap", "oneway"] + (["disconnected"] if tier == "thorough" else [])
     for oracle in ("approx", "convex", "pairwise"):
         for fam in fams:
+            if tier == "quick" and oracle == "convex" and fam == "two_overlap":
+                continue          # cube-root counting numbers on overlapping regions: about a minute, thorough tier
             cfgs.append(dict(name="real:%s:%s:i1" % (oracle, fam), kind="real", oracle=oracle, fam=fam, iters=1, cost=10, timeout=900,
                              core=oracle != "convex"))
     for oracle in ("approx", "pairwise"):
